@@ -168,7 +168,7 @@ func genOps(b bias, guard bool) []mach.Op {
 	case r < b.fail*0.8+b.exotic+b.loop:
 		ops = append(ops, mach.Op{Name: "loop"})
 	case r < b.fail*0.8+b.exotic+b.loop+0.12:
-		ops = append(ops, mach.Op{Name: "retnull"})
+		ops = append(ops, mach.Op{Name: pickS([]string{"retnull", "retnull", "retundef"})})
 	case r < b.fail*0.8+b.exotic+b.loop+0.2:
 		f := map[string]interface{}{}
 		for i, n := 0, rng.Intn(3); i < n; i++ {
@@ -897,7 +897,7 @@ func genPersist(id int) O {
 			bound := pick([]interface{}{float64(5), float64(3), 2.5, float64(0)})
 			a = &mach.ASpec{Nodes: map[string]*mach.ANode{
 				"n0": {BType: "message", Branches: []mach.ABranch{{Target: "n1"}}},
-				"n1": {Act: []mach.Op{{Name: "set", K: ineq, V: bound}}, BType: "bindings", Branches: []mach.ABranch{{Target: "n2"}}},
+				"n1": {Act: ineqAct(ineq, bound), BType: "bindings", Branches: []mach.ABranch{{Target: "n2"}}},
 				"n2": {BType: "message", Branches: []mach.ABranch{{HasPat: true, Pat: map[string]interface{}{"n": ineq}, Target: "n4"}, {Target: "n2"}}},
 				"n4": {Act: []mach.Op{{Name: "emitb", K: "?lim"}, {Name: "del", K: "?lim"}}, BType: "bindings", Branches: []mach.ABranch{{Target: "n2"}}},
 			}}
@@ -950,6 +950,16 @@ func genPersist(id int) O {
 }
 
 var nilStart bool
+
+// ineqAct: an action computes the bound of an inequality variable and - sometimes - the value of its plain counterpart, too
+// (both are integers for the script; what they are for the matcher must not depend on a round trip of the state)
+func ineqAct(ineq string, bound interface{}) []mach.Op {
+	ops := []mach.Op{{Name: "set", K: ineq, V: bound}}
+	if p(0.5) {
+		ops = append(ops, mach.Op{Name: "set", K: "?lim", V: pick([]interface{}{float64(3), float64(5), float64(7), float64(0)})})
+	}
+	return ops
+}
 
 func max(a, b int) int {
 	if a > b {
